@@ -332,31 +332,44 @@ def runLine (r : Report) (sec : Nat) (l : Line) : Report :=
     | _ => r := r.mismatch sec l.idx "unparsable-observation" impl
     return r
 
-/-! ### `p`: one request through `httpx.Parse`
-  p T { Name ty t:<key>|<tag value> … } P { k s:v … } F { k [ s:v … ] … } H { k [ s:v … ] … } B <json value | none> -/
+/-! ### `p`: one request through `httpx.Parse`; `pp` / `pf` / `ph` / `pj`: the same request through `ParsePath` /
+`ParseForm` / `ParseHeaders` (→ `encoding.ParseHeaders`) / `ParseJsonBody` alone
+  p T { Name ty t:<key>|<tag value> … } P { k s:v … } F { k [ s:v … ] … } H { k [ s:v … ] | k null … } B <json value | none>
+A header / form key may carry zero values: `k [ ]` (empty slice) or `k null` (nil slice). -/
 
 structure POp where
   fs : Fields
   p : Obj
   f : List (Str × List Str)
-  h : List (Str × List Str)
+  h : List (Str × HVals)
   b : Option J
 
 def strOf : J → Option Str
   | .str s => some s
   | _ => none
 
+/-- form values: a nil and an empty value list are the same to `GetFormValues` (nothing left after filtering) -/
 def multiOf : Obj → Option (List (Str × List Str))
   | [] => some []
   | (k, .arr l) :: rest =>
     match l.mapM strOf, multiOf rest with
     | some vs, some r => some ((k, vs) :: r)
     | _, _ => none
+  | (k, .null) :: rest => (multiOf rest).map fun r => (k, []) :: r
+  | _ => none
+
+def hmultiOf : Obj → Option (List (Str × HVals))
+  | [] => some []
+  | (k, .arr l) :: rest =>
+    match l.mapM strOf, hmultiOf rest with
+    | some vs, some r => some ((k, some vs) :: r)
+    | _, _ => none
+  | (k, .null) :: rest => (hmultiOf rest).map fun r => (k, none) :: r
   | _ => none
 
 def parsePOp (toks : List String) : Option POp :=
   match toks with
-  | "p" :: "T" :: rest =>
+  | _ :: "T" :: rest =>
     match parseTyT (rest.length + 1) rest with
     | some (.struct fs, "P" :: r1) =>
       match parseJT (r1.length + 1) r1 with
@@ -365,7 +378,7 @@ def parsePOp (toks : List String) : Option POp :=
         | some (.obj f, "H" :: r3) =>
           match parseJT (r3.length + 1) r3 with
           | some (.obj h, "B" :: r4) =>
-            match multiOf f, multiOf h with
+            match multiOf f, hmultiOf h with
             | some f', some h' =>
               if r4 = ["none"] then some { fs := fs, p := p, f := f', h := h', b := none }
               else match parseJT (r4.length + 1) r4 with
@@ -389,12 +402,46 @@ def keyCover : Fields → List String
   | .nil => []
   | .cons _ tag t rest => ("http-field-" ++ String.ofList (fieldKeyOf tag)) :: (tyFeatures t ++ keyCover rest)
 
+/-- which of the four unmarshalers an op runs -/
+structure Sel where
+  path : Bool
+  form : Bool
+  header : Bool
+  json : Bool
+
+def selOf : String → Option (Sel × String)
+  | "p" => some (⟨true, true, true, true⟩, "httpx.Parse")
+  | "pp" => some (⟨true, false, false, false⟩, "httpx.ParsePath")
+  | "pf" => some (⟨false, true, false, false⟩, "httpx.ParseForm")
+  | "ph" => some (⟨false, false, true, false⟩, "httpx.ParseHeaders")
+  | "pj" => some (⟨false, false, false, true⟩, "httpx.ParseJsonBody")
+  | _ => none
+
+/-- the model of one of `ParsePath` / `ParseForm` / `ParseHeaders` / `ParseJsonBody` alone: the fields of the other
+tag keys stay untouched; all four = `httpParse` -/
+def httpParseSel (sel : Sel) (op : POp) : Except Err VFields :=
+  if sel.path && sel.form && sel.header && sel.json then httpParse false op.fs op.p op.f op.h op.b
+  else
+    let part (run : Bool) (key : String) (x : Except Err VFields) : Except Err VFields :=
+      if run then x else .ok (zeroFields (viewFields key.toList op.fs))
+    match part sel.path "path" (httpParsePath false op.fs op.p) with
+    | .error e => .error e
+    | .ok v1 =>
+      match part sel.form "form" (httpParseForm false op.fs op.f) with
+      | .error e => .error e
+      | .ok v2 =>
+        match part sel.header "header" (httpParseHeaders false op.fs op.h) with
+        | .error e => .error e
+        | .ok v3 =>
+          match part sel.json "json" (httpParseJsonBody false op.fs op.b) with
+          | .error e => .error e
+          | .ok v4 => .ok (mergeViews op.fs v1 v2 v3 v4)
+
 def runPLine (r : Report) (sec : Nat) (l : Line) : Report :=
-  match parsePOp l.op with
-  | none => r.mismatch sec l.idx "bad-op" (joinSp l.op)
-  | some op => Id.run do
+  match (l.op.head?.bind selOf), parsePOp l.op with
+  | some (sel, fname), some op => Id.run do
     let mut r := { r with ops := r.ops + 1 }
-    let res := httpParse false op.fs op.p op.f op.h op.b
+    let res := httpParseSel sel op
     let vp := viewFields "path".toList op.fs
     let vf := viewFields "form".toList op.fs
     let vh := viewFields "header".toList op.fs
@@ -402,18 +449,26 @@ def runPLine (r : Report) (sec : Nat) (l : Line) : Report :=
     let fObj := formParams op.f
     let hObj := headerParams op.h
     let body := op.b.getD (.obj [])
-    r := r.addCover "mode-httpx.Parse"
+    r := r.addCover ("mode-" ++ fname)
     r := r.addCover (match res with | .ok _ => "http-accept" | .error e => "http-reject-" ++ e.name)
     for f in dedup (keyCover op.fs) do r := r.addCover f
     if op.b.isSome then r := r.addCover "http-json-body"
     if op.f.any (fun kv => kv.2.length > 1) then r := r.addCover "http-form-multi-valued"
     if op.f.any (fun kv => kv.2.any (·.isEmpty)) then r := r.addCover "http-form-empty-value"
-    if op.h.any (fun kv => kv.2.length > 1) then r := r.addCover "http-header-multi-valued"
-    for f in dedup (inputFeatures (httpCfgPath false) vp op.p ++ inputFeatures (httpCfgForm false) vf fObj
-        ++ inputFeatures (httpCfgHeader false) vh hObj
-        ++ (match body with | .obj m => inputFeatures (httpCfgJson false) vj m | _ => [])) do r := r.addCover f
-    let cmpl := Spec.okFields (httpCfgPath false) vp op.p && Spec.okFields (httpCfgForm false) vf fObj
-      && Spec.okFields (httpCfgHeader false) vh hObj && Spec.complete (httpCfgJson false) (.struct vj) body
+    if op.f.any (fun kv => kv.2.isEmpty) then r := r.addCover "http-form-zero-values"
+    if op.h.any (fun kv => kv.2.len > 1) then r := r.addCover "http-header-multi-valued"
+    if op.h.any (fun kv => kv.2 == some []) then r := r.addCover "http-header-zero-values(empty-slice)"
+    if op.h.any (fun kv => kv.2 == none) then r := r.addCover "http-header-zero-values(nil-slice)"
+    if op.h.any (fun kv => (kv.2.getD []).any (·.isEmpty)) then r := r.addCover "http-header-empty-string"
+    if op.p.any (fun kv => match kv.2 with | .str [] => true | _ => false) then r := r.addCover "http-path-empty-string"
+    for f in dedup ((if sel.path then inputFeatures (httpCfgPath false) vp op.p else [])
+        ++ (if sel.form then inputFeatures (httpCfgForm false) vf fObj else [])
+        ++ (if sel.header then inputFeatures (httpCfgHeader false) vh hObj else [])
+        ++ (match sel.json, body with | true, .obj m => inputFeatures (httpCfgJson false) vj m | _, _ => [])) do r := r.addCover f
+    let cmpl := (!sel.path || Spec.okFields (httpCfgPath false) vp op.p)
+      && (!sel.form || Spec.okFields (httpCfgForm false) vf fObj)
+      && (!sel.header || Spec.okFields (httpCfgHeader false) vh hObj)
+      && (!sel.json || Spec.complete (httpCfgJson false) (.struct vj) body)
     let outside := match res with | .error .outside => true | _ => false
     if outside then r := r.addCover "model-outside(panic-monitor-only)"
     let impl := joinSp l.obs
@@ -423,10 +478,12 @@ def runPLine (r : Report) (sec : Nat) (l : Line) : Report :=
       | some (.struct vs, []) =>
         if !outside then
           r := r.addCover (if cmpl then "accepted-and-complete" else "accepted-not-complete")
-          let sat := Spec.satFields (httpCfgPath false) vp op.p (viewVals "path".toList op.fs vs)
-            && Spec.satFields (httpCfgForm false) vf fObj (viewVals "form".toList op.fs vs)
-            && Spec.satFields (httpCfgHeader false) vh hObj (viewVals "header".toList op.fs vs)
-            && Spec.satisfies (httpCfgJson false) (.struct vj) body (.struct (viewVals "json".toList op.fs vs))
+          let part (run : Bool) (key : String) (fsv : Fields) (ok : VFields → Bool) : Bool :=
+            if run then ok (viewVals key.toList op.fs vs) else Spec.isZeroFields fsv (viewVals key.toList op.fs vs)
+          let sat := part sel.path "path" vp (Spec.satFields (httpCfgPath false) vp op.p)
+            && part sel.form "form" vf (Spec.satFields (httpCfgForm false) vf fObj)
+            && part sel.header "header" vh (Spec.satFields (httpCfgHeader false) vh hObj)
+            && part sel.json "json" vj (fun v => Spec.satisfies (httpCfgJson false) (.struct vj) body (.struct v))
           if !sat then
             r := r.violation sec l.idx s!"accepted-but-constraints-violated op=[{joinSp l.op}] impl=[{impl}]"
           match res with
@@ -448,9 +505,10 @@ def runPLine (r : Report) (sec : Nat) (l : Line) : Report :=
       r := r.violation sec l.idx s!"panic op=[{joinSp l.op}] impl=[{impl}]"
     | _ => r := r.mismatch sec l.idx "unparsable-observation" impl
     return r
+  | _, _ => r.mismatch sec l.idx "bad-op" (joinSp l.op)
 
 def runSection (r : Report) (s : Section) : Report :=
-  s.lines.foldl (fun r l => if l.op.head? = some "p" then runPLine r s.idx l else runLine r s.idx l) r
+  s.lines.foldl (fun r l => if (l.op.head?.bind selOf).isSome then runPLine r s.idx l else runLine r s.idx l) r
 
 def driver (secs : List Section) : Report := secs.foldl runSection {}
 
